@@ -113,6 +113,10 @@ def corpus0(tier, seed):
         out.append(("ann:" + name, g, {"annotated", "meta"}))
     for name, g in structured_family():
         out.append(("str:" + name, g, {"curated", "structured"}))
+    # conflict gadgets with seeded priorities/associativity: parsers whose tables exist only
+    # because the meta-data resolved shift/reduce and reduce/reduce conflicts
+    for gid, g, tags in gadget_grammars(seed, 36 if tier == "quick" else 360):
+        out.append((gid, g, {"meta", "gadget"}))
     rng = random.Random(seed * 7919 + 11)
     nfam = 150 if tier == "quick" else 2500
     fam = [g for g in G.family(2, 2, 3, 2) if G.useful(g)]
@@ -595,7 +599,7 @@ def gadget_grammars(seed, n):
     def m(*parts):
         return ", ".join(x for x in parts if x)
     for i in range(n):
-        k = i % 6
+        k = i % 9
         a1, a2, p1, p2 = rng.choice(assoc), rng.choice(assoc), rng.choice(prios), rng.choice(prios)
         ta = rng.choice([None, None, "left", "right"])
         nops = rng.choice(["", "", "nops"])
@@ -612,9 +616,17 @@ def gadget_grammars(seed, n):
         elif k == 4:
             g = G.G("S: A Tt | B Tt | C; A: Ta {%s}; B: Ta {%s}; C: Ta Tt {%s}" % (m(p1, a1), m(p2, a2), m(rng.choice(prios))),
                     tmeta={"t": (None, ta)})
-        else:
+        elif k == 5:
             g = G.G("S: A Tc | B Tc | Tb Tc Td {%s}; A: Tb {%s} | {%s}; B: Tb {%s} | " % (
                 m(rng.choice(prios)), m(p1, a1), m(nopse), m(p2, a2)))
+        # reduce/reduce between productions of DIFFERENT length (one a suffix of the other)
+        elif k == 6:
+            g = G.G("S: X | Ta X; X: Ta Tb {%s} | Tb {%s}" % (m(p1, a1), m(p2, a2)))
+        elif k == 7:
+            g = G.G("S: A Tc | Ta B Tc; A: Ta Tb {%s}; B: Tb {%s}" % (m(p1, a1), m(p2, a2)))
+        else:
+            g = G.G("S: Ta X Tc | A Tc; A: Ta Tb Tb {%s} | Ta Tb {%s}; X: Tb Tb {%s} | Tb {%s}" % (
+                m(p1), m(p2), m(rng.choice(prios)), m(rng.choice(prios))))
         out.append(("gad:%d:%d" % (seed, i), g, {"meta", "gadget"}))
     return out
 
@@ -790,8 +802,12 @@ def stage_lex(work, tier, seed):
             for x in ins:
                 inputs["%s#%d" % (cid, x["iid"])] = [x["text"], x["lat"]]
             cfg = {"algo": algo, "ms": ms, "lm": lm, "go": go, "partial": True}
-            cases.append({"id": cid, "grammar": text, "cfg": cfg, "meta": {"nodis": False, "plain": True},
-                          "inputs": ins, "max_trees": 10})
+            case = {"id": cid, "grammar": text, "cfg": cfg, "meta": {"nodis": False, "plain": True},
+                    "inputs": ins, "max_trees": 10}
+            if algo == "lr":
+                # the GLR parser with the same strategies and grammar order on, for C07
+                case["glr"] = {"algo": "glr", "ms": ms, "lm": lm, "go": True, "partial": True}
+            cases.append(case)
     pres = run.run_vdrive(work, "lex", cases)
     envs = [{"DUMPS": p + ".dumps.ndjson", "TRACES": p + ".traces.ndjson"} for p in pres
             if os.path.getsize(p + ".traces.ndjson") > 0]
@@ -800,7 +816,8 @@ def stage_lex(work, tier, seed):
     errs = [e for pre in pres for e in run.read_ndjson(pre + ".errs.ndjson")]
     # design-level: LexOrder vs LexDoc, exhaustive small scope (MC_Lex)
     mc = run.run_tlc(work, "MC_Lex", "MC_Lex.cfg", {}, workers=run.NCPU, timeout=1200)
-    return {"verdicts": [v for v in verdicts if v["bad"] or v["sort_div"]][:400], "gtext": gtext, "inputs": inputs,
+    return {"verdicts": [v for v in verdicts if v["bad"] or v["sort_div"] or v["c07"]][:400], "gtext": gtext, "inputs": inputs,
+            "npairs": sum(1 for v in verdicts if v["algo"] == "lr"),
             "errs": [dict(id=e["id"], cls=e["class"], msg=e["msg"][:200]) for e in errs][:50],
             "divergences": ["sort order differs: %s" % v["id"] for v in verdicts if v["sort_div"]][:10],
             "states": sum(r["distinct"] for r in rs) + mc["distinct"],
@@ -907,6 +924,8 @@ def pipeline_docs(tier, seed):
         "aug_ref_opt_sep": "S: Tc AUG?[Ta] S | Tc;\nterminals\nTa: 'a';\nTc: 'c';\n",
         "augl_ref": "S: Ta AUGL?;\nterminals\nTa: 'a';\n",
         "empty_ref_plus": "S: Ta EMPTY+;\nterminals\nTa: 'a';\n",
+        "assign_empty": "S: x=EMPTY Ta | Tb;\nterminals\nTa: 'a';\nTb: 'b';\n",
+        "bool_assign_empty": "S: x?=EMPTY | Ta S;\nterminals\nTa: 'a';\n",
         # production kinds that are not Rust identifiers
         "kind_dot": "S: Ta {a.b} | Tb;\nterminals\nTa: 'a';\nTb: 'b';\n",
         "kind_keyword": "S: Ta {fn} | Tb;\nterminals\nTa: 'a';\nTb: 'b';\n",
@@ -1747,6 +1766,28 @@ AST_SHAPES = [
     ("dup_rule_name", "S: A A;\nA: Num;\nA: Name;\nterminals\n" + T_NUMNAME, ["1 x"], None),
     ("keyword_field", "S: type=Num fn=Name;\nterminals\n" + T_NUMNAME, ["1 x"], None),
     ("underscore_names", "my_rule: my_item+;\nmy_item: Num | Name;\nterminals\n" + T_NUMNAME, ["1 x 2"], None),
+    # names whose snake-case form is a Rust keyword (generated fields, parameters, functions)
+    ("kw_rule_names", "S: If Type Loop;\nIf: Num Name;\nType: Name | Num;\nLoop: Box+;\nBox: Num;\nterminals\n" + T_NUMNAME,
+     ["1 a b 2 3"], None),
+    ("kw_term_names", "S: If Match For;\nterminals\nIf: /\\d+/;\nMatch: /[a-z]+/;\nFor: '!';\n", ["1 a !"], None),
+    ("kw_str_terms", "Stmt: If Num Then Name Else Name;\nterminals\nIf: '?';\nThen: ':';\nElse: '!';\n" + T_NUMNAME,
+     ["? 1 : a ! b"], None),
+    # rules named like the items the generated actions file starts with
+    ("prelude_c", "C: Num | C Name;\nterminals\n" + T_NUMNAME, ["1 a b"], None),
+    ("prelude_token", "S: Token+;\nToken: Num | Name;\nterminals\n" + T_NUMNAME, ["1 a"], None),
+    ("prelude_input", "Input: Ctx+;\nCtx: Num | Name;\nterminals\n" + T_NUMNAME, ["1 a"], None),
+    ("prelude_context", "S: Context TokenKind;\nContext: Num Name;\nTokenKind: Name | Num;\nterminals\n" + T_NUMNAME, ["1 a b"], None),
+    ("prelude_valspan", "S: ValSpan RustemoToken;\nValSpan: Num Name;\nRustemoToken: Name | Num;\nterminals\n" + T_NUMNAME, ["1 a b"], None),
+    ("std_names", "S: Vec Option String;\nVec: Num Name;\nOption: Name | Num;\nString: Num;\nterminals\n" + T_NUMNAME, ["1 a b 2"], None),
+    # the same assignment name twice in one production
+    ("dup_assign", "S: a=Num a=Name;\nterminals\n" + T_NUMNAME, ["1 x"], None),
+    ("dup_assign_bool", "S: a?=Ta? a=Num;\nterminals\nTa: 'a';\nNum: /\\d+/;\n", ["a 1"], None),
+    ("assign_like_auto", "S: num=Name Num;\nterminals\n" + T_NUMNAME, ["x 1"], None),
+    # a rule whose only content is the rule itself
+    ("self_rec_const", "S: Ta Tb S | EMPTY;\nterminals\nTa: '<';\nTb: '>';\n", ["< > < >", ""], None),
+    ("self_rec_opt", "S: Ta S? Tb;\nterminals\nTa: '<';\nTb: '>';\n", ["< < > >"], None),
+    ("self_rec_no_base", "S: A;\nA: Ta A;\nterminals\nTa: 'a';\n", [], None),
+    ("mutual_rec_const", "S: A;\nA: Ta B | Ta;\nB: Tb A;\nterminals\nTa: '<';\nTb: '>';\n", ["< > <"], None),
 ]
 
 
@@ -1801,6 +1842,15 @@ def stage_ast(work, tier, seed):
                           "settings": dict(st, builder="default"), "inputs": inputs, "nones": None,
                           "table": None, "extra_mods": [], "combo": 0, "sentences_only": True,
                           "cyclic": G.is_cyclic(g)})
+    # generated documents of the grammar language (compile check only: no inputs)
+    rngd = random.Random(seed * 53 + 11)
+    gcombos = [dict(algo="lr"), dict(algo="glr"), dict(algo="lr", tt="rn"), dict(algo="glr", loc_info=True),
+               dict(algo="lr", loc_info=True, gen="arrays"), dict(algo="glr", gen="arrays")]
+    for i in range(150 if tier == "quick" else 1500):
+        k += 1
+        insts.append({"name": "a%d" % k, "shape": "gen:%d" % i, "grammar": G.docgen(rngd),
+                      "settings": dict(gcombos[i % len(gcombos)], builder="default"), "inputs": [], "nones": None,
+                      "table": None, "extra_mods": [], "combo": 0, "sentences_only": True})
     # tables are needed for the query/run module (names of enum variants): dump with the same settings
     cases = []
     for inst in insts:
@@ -1837,7 +1887,7 @@ def stage_ast(work, tier, seed):
         my_errs = [e for e in r["rustc"] if e["file"] not in ("g", "g_actions")]
         if gen_errs:
             c11.append(dict(id=iid, what=[["rustc_rejects_generated_code", e["file"], e["code"], e["msg"][:120]] for e in gen_errs[:3]],
-                            grammar=inst["grammar"]))
+                            grammar=inst["grammar"], rustc=gen_errs))
             continue
         if my_errs:
             run.log("query module of %s does not compile: %s" % (iid, my_errs[:2]))
